@@ -587,9 +587,22 @@ func (a Set) Type() TermType { return TermTypeSet }
 func (a Set) convert(symbols *datalog.SymbolTable) datalog.Term {
 	datalogSet := make(datalog.Set, 0, len(a))
 	for _, e := range a {
-		datalogSet = append(datalogSet, e.convert(symbols))
+		datalogSet = appendSetElement(datalogSet, e.convert(symbols))
 	}
 	return datalogSet
+}
+
+// appendSetElement adds an element to a set unless it is already there: a set holds
+// each element once. Equality and fact deduplication ignore repeated elements while
+// length and intersection would count them, which made results depend on the order
+// in which facts are supplied.
+func appendSetElement(set datalog.Set, elt datalog.Term) datalog.Set {
+	for _, e := range set {
+		if e.Equal(elt) {
+			return set
+		}
+	}
+	return append(set, elt)
 }
 func (a Set) String() string {
 	elts := make([]string, 0, len(a))
